@@ -1,5 +1,5 @@
 // Runner: setup(); loop() x N with scripted inputs.  usage: sketch <passes> [inputs-file]
-// inputs file lines:  d <pin> v v v ... | a <pin> v ... | p <pin> v ... | t v v ... (millis drift) | s <hex line> (serial rx)
+// inputs file lines:  d <pin> v v v ... | a <pin> v ... | p <pin> v ... | t v v ... (millis drift) | T <start> (initial millis) | s <hex line> (serial rx)
 #include <cstdarg>
 #include <sstream>
 #include <fstream>
@@ -56,6 +56,7 @@ int main(int argc, char **argv) {
     while (std::getline(f, line)) {
       std::istringstream is(line); std::string k; is >> k;
       if (k == "t") { long v; while (is >> v) mock::drift.push_back(v); continue; }
+      if (k == "T") { unsigned long v; is >> v; mock::now_ms = v; continue; }   // clock value at power-up (to sit just before the counter wraps)
       if (k == "s") { std::string h; is >> h; std::string t; for (size_t i = 1; i + 1 < h.size(); i += 2) t += (char)strtol(h.substr(i, 2).c_str(), nullptr, 16); Serial.rx.push_back(t); continue; }
       int p; is >> p; long v;
       auto &q = (k == "d" ? mock::din : k == "a" ? mock::ain : mock::pin)[p];
